@@ -205,6 +205,15 @@ class CFG:
                             o0 = Operand(ops[0])
                             if o0.place is not None and o0.place.is_local and o0.place.local in st:
                                 st[(l, 0)] = st[o0.place.local]
+                            elif o0.is_const and (ops[0].get("k") or {}).get("ty") == "bool":
+                                st[(l, 0)] = ("bool", (ops[0]["k"].get("u") or 0) & 1)
+                    elif k == "use" and Operand(rv["a"]).is_const and (rv["a"].get("k") or {}).get("ty") == "bool":
+                        st.pop((l, 0), None)
+                        st[l] = ("bool", (rv["a"]["k"].get("u") or 0) & 1)
+                    elif k == "un" and rv.get("op") == "Not" and Operand(rv["a"]).place is not None and Operand(rv["a"]).place.is_local \
+                            and st.get(Operand(rv["a"]).place.local, (None,))[0] == "bool":
+                        st.pop((l, 0), None)
+                        st[l] = ("bool", 1 - st[Operand(rv["a"]).place.local][1])
                     elif k == "use":
                         op = Operand(rv["a"])
                         st.pop((l, 0), None)
@@ -241,6 +250,10 @@ class CFG:
                     self._switch_on[bb] = discr_src[d.place.local]
                 if d.place is not None and d.place.is_local:
                     self._last_switch_value = discr_of.get(d.place.local)
+                    bv = st.get(d.place.local)
+                    if self._last_switch_value is None and t.raw.get("dty") == "bool" and bv is not None and bv[0] == "bool":
+                        self._last_switch_value = bv[1]
+                        discr_of[d.place.local] = bv[1]
             if t.kind == "switch" and record:
                 d = Operand(t.raw["d"])
                 if d.place is not None and d.place.is_local and d.place.local in discr_of:
@@ -392,48 +405,55 @@ class CFG:
                 st[l] = (adt_of(l), e.label[1])
             return st
 
-        IN = {}
+        K = 8       # distinct variant states kept per block (paths are only merged beyond that)
+        IN = {}     # block -> list of states
+
+        def add(bb, st):
+            lst = IN.setdefault(bb, [])
+            if any(st == x for x in lst):
+                return False
+            # a state that knows less than an existing one adds paths, one that knows more does not
+            for x in lst:
+                if all(st.get(k) == v for k, v in x.items()):
+                    return False       # x's facts all hold in st: x already covers st's continuation
+            if len(lst) < K:
+                lst.append(dict(st))
+            else:
+                # merge into the closest state (keep only common facts)
+                best = max(range(len(lst)), key=lambda i: sum(1 for k, v in lst[i].items() if st.get(k) == v))
+                merged = {k: v for k, v in lst[best].items() if st.get(k) == v}
+                if merged == lst[best]:
+                    return False
+                lst[best] = merged
+            return True
+
         work = []
         for e in edges:
             st = out_state(e)
             if st is None or e.dst in cut_nodes:
                 continue
-            if e.dst in IN:
-                IN[e.dst] = {k: v for k, v in IN[e.dst].items() if st.get(k) == v}
-            else:
-                IN[e.dst] = dict(st)
-            work.append(e.dst)
+            if add(e.dst, st):
+                work.append(e.dst)
         it = 0
         while work:
             it += 1
-            if it > 20000:
+            if it > 40000:
                 return self.edge_targets_reachable(edges, cut_nodes, cut_edges)
             bb = work.pop()
-            rec = {}
             blk = body.blocks[bb]
-            # known discriminant at this block's switch under the path state?
-            known = {}
-            saved = None
-            st_out = self._vtransfer(bb, IN[bb], False)
-            decided = None
             t = blk.term
-            if t.kind == "switch":
-                decided = self._last_switch_value     # discriminant value known at the read, under the path state
-            for e in self.succ.get(bb, []):
-                if e.dst in cut_nodes or e.key() in ce3:
-                    continue
-                if decided is not None and isinstance(e.label, tuple) and e.label[0] == "sw":
-                    vals = [x.label[1] for x in self.succ.get(bb, []) if isinstance(x.label, tuple)]
-                    if e.label[1] != decided and not (e.label[1] == "otherwise" and decided not in vals):
+            for st_in in list(IN.get(bb, [])):
+                st_out = self._vtransfer(bb, st_in, False)
+                decided = self._last_switch_value if t.kind == "switch" else None
+                for e in self.succ.get(bb, []):
+                    if e.dst in cut_nodes or e.key() in ce3:
                         continue
-                st = refine(e, st_out)
-                if e.dst not in IN:
-                    IN[e.dst] = dict(st)
-                    work.append(e.dst)
-                else:
-                    new = {k: v for k, v in IN[e.dst].items() if st.get(k) == v}
-                    if new != IN[e.dst]:
-                        IN[e.dst] = new
+                    if decided is not None and isinstance(e.label, tuple) and e.label[0] == "sw":
+                        vals = [x.label[1] for x in self.succ.get(bb, []) if isinstance(x.label, tuple)]
+                        if e.label[1] != decided and not (e.label[1] == "otherwise" and decided not in vals):
+                            continue
+                    st = refine(e, st_out)
+                    if add(e.dst, st) and e.dst not in work:
                         work.append(e.dst)
         return set(IN)
 
